@@ -504,7 +504,7 @@ func runCase(c Case) *ev.Failure {
 		return ev.Failf("harness-decode", "the serialised tree does not decode: %v", err)
 	}
 	if d := gen.CompareTree(c.AVPs, decoded.AVP, ""); d != "" && c.Build != 5 { // mode 5 repeats parts of the tree
-		return ev.Failf("harness-decode", "the decoded tree is not the generated one: %s", d)
+		return ev.Failf("decoded-tree-differs", "the message read back from the wire does not hold the tree that was built (searches on it cannot find what the sender put there): %s", d)
 	}
 	for _, q := range c.Queries {
 		if f := checkQuery(built, cat, c.App, q, "API-built"); f != nil {
